@@ -75,15 +75,18 @@ def plan(tier, seed):
 
 
 def required(tier):
-    return {
-        "atomize_runs": 800, "files_generated": 600, "files_pipeline": 60, "pipeline_assemble_files": 20, "pipeline_call_exact_files": 15,
-        "pipeline_call_files": 10, "pipeline_records": 200, "records_seen": 2500, "records_without_sites": 150, "shape_noalt_with_snvpos_records": 80,
-        "shape_monomorphic_site_records": 100, "shape_plain_records": 1200, "refmasked_records": 150, "sites_decided": 3000,
-        "sites_polymorphic_checked": 2500, "sites_multiallelic": 500, "sites_alphabetical_numbering_differs": 500, "gt_checked": 5000,
-        "gt_with_missing_allele": 300, "ps_checked": 2500, "ac_checked": 2500, "ds_checked": 2500, "ds_input_sums_below_ploidy": 800,
-        "ds_from_afp": 400, "ds_absent_checked": 500, "info_acp_checked": 1200, "dp_checked": 2500, "dp_absent_checked": 500,
-        "dp_site_order_matters": 300, "output_lines_wellformed_checked": 2500, "multi_record_runs_ok": 250,
+    q = {
+        "atomize_runs": 2500, "files_generated": 3500, "files_pipeline": 120, "pipeline_assemble_files": 60, "pipeline_call_exact_files": 50,
+        "pipeline_call_files": 25, "pipeline_records": 400, "pipeline_shape_mono_records": 20, "pipeline_shape_noalt_snv_records": 3,
+        "pipeline_shape_plain_records": 200, "records_seen": 6000, "records_without_sites": 600, "shape_noalt_with_snvpos_records": 400,
+        "shape_monomorphic_site_records": 400, "shape_plain_records": 3000, "refmasked_records": 700, "sites_decided": 8000,
+        "sites_polymorphic_checked": 8000, "sites_multiallelic": 2000, "sites_alphabetical_numbering_differs": 4000, "gt_checked": 20000,
+        "gt_with_missing_allele": 5000, "ps_checked": 8000, "ac_checked": 8000, "ds_checked": 12000, "ds_input_sums_below_ploidy": 6000,
+        "ds_from_afp": 3000, "ds_absent_checked": 1200, "info_acp_checked": 4000, "dp_checked": 4000, "dp_absent_checked": 1500,
+        "dp_site_order_matters": 1000, "output_lines_wellformed_checked": 8000, "multi_record_runs_ok": 800,
     }
+    k = 1 if tier == "quick" else 8
+    return {name: v * k for name, v in q.items()}
 
 
 # ---------------------------------------------------------------------------------------------------------------------
@@ -415,6 +418,7 @@ def judge(text_in, hin, recs, out_text, col, origin, multi):
         col.count("output_lines_wellformed_checked")
         if o.fields[4] == "":
             found.append((K_EMPTY_ALT, "output line has an empty ALT column: %r" % o.line[:300]))
+            continue
         for mech, msg in vcfparse.check_record_wellformed(o, hout):
             if mech in IGNORED_WELLFORMED:
                 continue
@@ -771,7 +775,14 @@ def run_shard(tier, seed, spec, col):
     sh = spec["shard"]
     wd = env.workdir("c20-%s-%s-%d" % (tier, spec["name"], seed))
     runner = Runner(wd, gen.rng_for(seed, ID, 5000 + sh, 0))
+    def pipeline(i):
+        rng = gen.rng_for(seed, ID, 1000 + sh, i)
+        run_pipeline(rng, os.path.join(wd, "pipe%03d" % i), sh * spec["pipelines"] + i, col, runner)
+
     try:
+        # one pipeline run first, so that the witnesses kept per mechanism include program-produced records
+        if spec["pipelines"]:
+            pipeline(0)
         for i in range(spec["gen_files"]):
             rng = gen.rng_for(seed, ID, sh, i)
             kind = str(rng.choice(["clean", "hostile-single", "mixed"], p=[0.55, 0.2, 0.25]))
@@ -782,9 +793,8 @@ def run_shard(tier, seed, spec, col):
             cli.relax_warnings()
             if sh == 0 and i < 2:
                 col.sample({"kind": kind, "input_records": [clip_record(l, 400) for l in split_text(text)[1]][:3]})
-        for i in range(spec["pipelines"]):
-            rng = gen.rng_for(seed, ID, 1000 + sh, i)
-            run_pipeline(rng, os.path.join(wd, "pipe%03d" % i), sh * spec["pipelines"] + i, col, runner)
+        for i in range(1, spec["pipelines"]):
+            pipeline(i)
     finally:
         shutil.rmtree(wd, ignore_errors=True)
 
